@@ -306,8 +306,11 @@ stream_step(struct stream *stream)
 		return -1;
 	}
 
+	/* The first event has no previous clock to compare with */
+	int first = (stream->cur_ev == NULL);
+
 	/* Only step the offset if we have loaded an event */
-	if (stream->cur_ev != NULL) {
+	if (!first) {
 		stream->offset += ovni_ev_size(stream->cur_ev);
 
 		/* It cannot pass the size, otherwise we are reading garbage */
@@ -361,7 +364,7 @@ stream_step(struct stream *stream)
 	int64_t clock = stream_evclock(stream, stream->cur_ev);
 
 	/* Ensure the clock grows monotonically if unsorted flag not set */
-	if (stream->unsorted == 0) {
+	if (stream->unsorted == 0 && !first) {
 		if (clock < stream->lastclock) {
 			err("clock goes backwards %"PRIi64" -> %"PRIi64" in stream '%s' at offset %"PRIi64,
 					stream->lastclock,
